@@ -8,7 +8,7 @@
   crates/colorchoice/src/lib.rs        AtomicChoice::{from_choice, to_choice, new, get, set},
                                        ColorChoice::{global, write_global}, `static USER`
   crates/colorchoice-clap/src/lib.rs   Color::{as_choice, write_global}
-  crates/anstream/src/auto.rs          fn choice(raw: &dyn RawStream)
+  crates/anstream/src/auto.rs          fn choice(raw: &dyn RawStream), AutoStream::choice
   -> coq/Generated/ChoiceFn.v
 
 All of them are TRANSLATED (tools/rs2v); nothing in this area is opaque.  Proofs/ChoiceGen.v proves
@@ -177,7 +177,7 @@ V_AUTO = {
     "consts": {},
     "param_types": {"raw": ("coq", "ch_raw")},
     "statics": {"USER": ATOMIC},
-    "static_use": {"choice": [("USER", "in")]},
+    "static_use": {"choice": [("USER", "in")], "AutoStream::choice": [("USER", "in")]},
     "fns": {},
     "methods": {("coq", "is_terminal"): m_raw_is_terminal},
     "opaque": {},
@@ -254,6 +254,7 @@ def register(generators, gm):
             ], "", "", shapes))
             out.append(translate(auto, V_AUTO, [
                 ("choice", None, "g_choice", {}),
+                ("choice", "AutoStream", "g_autostream_choice", {}),
             ], "", "", shapes))
             return "\n".join(out) + "\n"
         except TranslateError as e:
